@@ -53,11 +53,31 @@ def real_tokens(beh):
     return [t for t in beh['toks'] if t['t'] != 'SB']
 
 
-def render(beh, layout='spaced', rnd=None, final_newline=True, crlf=False, info=None):
+def render(beh, layout='spaced', rnd=None, final_newline=True, crlf=False, info=None, respell=None):
     """Concrete bytes for a behaviour, or None when the behaviour cannot be laid out
     (statement after a nested short-if inside the outer one; statement starting with `(`
     directly inside a short-if)."""
     toks = beh['toks']
+    if respell:
+        # same derivation, other spellings within each terminal class (the generator rotates spellings by
+        # position, so two adjacent operators never get the same spelling: these variants supply the
+        # gluing-prone repetitions `- -x`, `a - -b`, `x .. .5`, `1. ..`); only for layouts that separate all tokens
+        assert layout in ('spaced', 'lines', 'semis', 'comments')
+        toks = [dict(t) for t in toks]
+        n = 0
+        for t in toks:
+            n += 1
+            if respell == 'minus' and t['t'] in ('unop', 'binop'):
+                t['w'] = [45]
+            elif respell == 'dots':
+                if t['t'] == 'binop':
+                    t['w'] = [46, 46]
+                elif t['t'] == 'Number':
+                    t['w'] = [46, 53] if n % 2 else [49, 46]
+            elif respell == 'tilde' and t['t'] in ('unop',):
+                t['w'] = [126]
+            elif respell == 'tilde' and t['t'] == 'binop':
+                t['w'] = [126, 61] if n % 2 else [60]
     out = []
     prev = None
     sb_pending = False
